@@ -64,7 +64,7 @@ def _c2(case, res):
 
     if case.get("what") != "homog":
         return False
-    c = {"-1": -1.0, "2": 2.0, "0.5": 0.5, "i": 1j}[case["c"]]
+    c = c20.SCALARS[case["c"]]
     J = _J(case)
     return "cp" in (c20.classify(J, case["d"]), c20.classify(c * J, case["d"]))
 
@@ -74,7 +74,7 @@ def _a2(case, res):
     from mc.props import c20
 
     d = case["d"]
-    c = {"-1": -1.0, "2": 2.0, "0.5": 0.5, "i": 1j}[case["c"]]
+    c = c20.SCALARS[case["c"]]
     J = _J(case)
     a, b = res["observed"]
     for val, M in ((a, J), (b, c * J)):
